@@ -157,11 +157,11 @@ func (e *Exec) evalExternal(call *ast.CallExpr, st *State, ctx *Ctx) []string {
 	case "strings.ReplaceAll":
 		return []string{"(str.replace_all " + arg(0) + " " + arg(1) + " " + arg(2) + ")"}
 	case "strings.Split":
-		return []string{"(strSplit " + arg(0) + " " + arg(1) + ")"}
+		return []string{"(Slice (strSplit " + arg(0) + " " + arg(1) + "))"}
 	case "strings.SplitN":
-		return []string{"(strSplitN " + arg(0) + " " + arg(1) + " " + arg(2) + ")"}
+		return []string{"(Slice (strSplitN " + arg(0) + " " + arg(1) + " " + arg(2) + "))"}
 	case "strings.Join":
-		return []string{"(strJoin " + arg(0) + " " + arg(1) + ")"}
+		return []string{"(strJoin (sitems " + arg(0) + ") " + arg(1) + ")"}
 	case "strings.Count":
 		return []string{"(strCount " + arg(0) + " " + arg(1) + ")"}
 	case "maps.Clone", "slices.Clone", "golang.org/x/exp/slices.Clone", "golang.org/x/exp/maps.Clone":
@@ -230,7 +230,7 @@ func (e *Exec) evalExternal(call *ast.CallExpr, st *State, ctx *Ctx) []string {
 		}
 	case "os.Environ":
 		e.note("os.Environ() is the constant osEnviron: the environment does not change during an evaluation (assumed)")
-		return []string{"osEnviron"}
+		return []string{"(Slice osEnviron)"}
 	case "os.Exit":
 		e.evalArgs(call, st, ctx)
 		return nil
